@@ -52,7 +52,7 @@ def build(case):
     # every third tree has application-supplied node ids on its odd nodes (the per-node graph keys are node ids)
     nid = (lambda i: 700 + i if i % 2 else None) if case["seed"] % 3 == 1 else None
     if fl == "str":
-        labs = gen.clone_labeling(rng, f, ["a", "b", "Z\u00fcrich", "km\u00b2"]) or [f"n{i}" for i in range(n)]
+        labs = gen.clone_labeling(rng, f, ["a", "b", "Z\u00fcrich", "km\u00b2", ""]) or [f"n{i}" for i in range(n)]
         nodes = gen.build(t, f, lambda i: labs[i], kind=kind, node_id=nid)
     elif fl == "int":
         labs = gen.clone_labeling(rng, f, [0, 1, 2, 3]) or list(range(n))
